@@ -14,14 +14,15 @@ def plan(tier):
         "required_obligations": [
             "n_multiple_of_superblock", "n_just_above_superblock", "padded_last_byte",
             "three_or_more_superblocks", "all_zero", "all_one", "equal_rank_run_ones", "equal_rank_run_zeros",
-            "k8", "ctor_fill_true", "k_larger_than_vector",
+            "k8", "ctor_fill_true", "fill_true_with_padded_last_byte",
+            "stale_ones_behind_end_after_truncate_or_pop", "k_larger_than_vector",
             "more_than_65535_ones_in_a_superblock", "more_than_65535_zeros_in_a_superblock",
             "more_than_128_superblocks_sparse", "more_than_128_superblocks", "big_single_superblock",
             "wm_exhaustive_small", "wm_len_at_superblock_boundary", "wm_padded_levels", "wm_single_symbol_text"],
         "rule": "rs: one run = one RankSelect object (bits,k), all of rank_1/rank_0(i), i in 0..n+1, and "
                 "select_1/select_0(j), j in 0..n+1, plus get; every n in 1..130 (k=1) and n = 32k*{1,2,3} +- 9 for "
                 "k in {1,2,3,8} with fills all-0, all-1, single bit at a block/superblock boundary, densities "
-                "1/2, 1/16, 15/16, constant superblocks/bytes; three BitVec constructors. wm: one run = one "
+                "1/2, 1/16, 15/16, constant superblocks/bytes; five BitVec constructions (incl. fill-true, truncate and pop leaving stale one bits behind the end). wm: one run = one "
                 "WaveletMatrix, rank(c,p) for all six symbols and all p; all texts over ACGTN$ up to length 4 (5 "
                 "thorough) and random/skewed texts with lengths around the 32-bit superblocks up to 300. rsbig: structured "
                 "vectors given by parameters (n in {20000, 150000, 10^6}, period P, residue set R, flipped positions "
